@@ -421,13 +421,20 @@ def run(chk):
         "numInFlightRequests (read by reflection) is 0 on every replica; bound = 3 sections, counted in sections, never in time",
         "Released is judged as 'a refusal of a PreCommit for the expected version must be justified by the replica's own open "
         "PreCommit or by an accepted, not yet aborted PreCommit of another proposer' (sender times order a proposer's requests)",
+        "SameValuePerVersion is judged on what the replicas expose: GetState replies, the ReadValue that opens a section (the "
+        "replica is outside any section then) and Commit requests; a value exposed for version v > 0 must be the value of a "
+        "Commit request for v that crossed a ReplicaHandle before",
         "design-level bounds: 2-3 replicas exhaustively (1-2 sections per writer, 1 drop, 1 duplicate), 3-7 replicas by simulation",
     ]
     chk.gaps += ["two Receive calls of one sender running concurrently inside one replica (net/rpc serves requests in parallel; "
                  "the gate delivers one request at a time per schedule step)",
                  "shcounter.ANode under MPCalContext.Run is not part of this check (sections are issued the way Run issues them)"]
     return chk.finish(rule="schedules = TLC simulation behaviours of TwoPC.tla (3/4/5%s replicas, drops, duplicates, reordering) + the "
-                           "TLC counterexamples of the two pinned-tree variants + seeded random schedules (2-%d replicas), each run over "
+                           "TLC counterexamples of the pinned-tree variants + the schedules TLC generates on the variant 'a reject reply "
+                           "carries the working value' (RWGen: a lagging proposer catches up from a replica with an uncommitted write; "
+                           "stale PreCommit / Abort / Commit) + seeded random schedules (2-%d replicas, every other one with a laggard), each run over "
                            "the RPC and the in-process transport on real NewTwoPC replicas behind a gating ReplicaHandle, drained, observed, "
-                           "followed by a solo phase; every event folded by TLC into OneCopyObs.tla (verdict) and TwoPCTrace.tla (drift)"
+                           "(GetState of a replica after every Commit that reached it and after every reject reply it was handed, of all "
+                           "replicas at the end), followed by a solo phase; every event folded by TLC into OneCopyObs.tla (verdict) and "
+                           "TwoPCTrace.tla (drift)"
                            % ("" if quick else "/7", 5 if quick else 7))
